@@ -83,6 +83,16 @@ func init() {
 			lo, hi := fr.i.concreteInt(a[0], "vRange lo"), fr.i.concreteInt(a[1], "vRange hi")
 			return int(lo + fr.i.choice(hi-lo+1))
 		},
+		// vPattern(n, seed): n concrete bytes b[i] = byte(i*13+seed), produced natively
+		"vPattern": func(fr *frame, a []value) value {
+			n := fr.i.concreteInt(a[0], "vPattern length")
+			seed := fr.i.concreteInt(a[1], "vPattern seed")
+			b := make([]value, n)
+			for k := range b {
+				b[k] = uint8(int64(k)*13 + seed)
+			}
+			return b
+		},
 		"vTier": func(fr *frame, a []value) value { return fr.i.p.tier },
 		"vAssume": func(fr *frame, a []value) value {
 			fr.i.assume(boolTerm(fr.i, a[0]))
